@@ -700,6 +700,8 @@ type mkTunnelPlan struct {
 	S2C     int64  `json:"s2c"`
 	Mode    int    `json:"mode"`
 	Chunk   int    `json:"chunk"` // client write size
+	// AbortAfter: in client-abort mode, close after this many received bytes (0 = S2C/2)
+	AbortAfter int64 `json:"abort_after,omitempty"`
 	// ReadBuf: size of the buffer the client passes to Read (0 = 32 KiB)
 	ReadBuf int `json:"read_buf,omitempty"`
 	// ReaderStallMs: the client does not read for this long after the open (builds backpressure
@@ -816,7 +818,7 @@ func mkRunTunnel(m *mkMesh, p mkTunnelPlan, watchdog time.Duration) *mkClientSid
 		time.Sleep(time.Duration(p.ReaderStallMs) * time.Millisecond)
 	}
 	for {
-		if p.Mode == mkModeClientAbort && v.n >= p.S2C/2 {
+		if p.Mode == mkModeClientAbort && ((p.AbortAfter > 0 && v.n >= p.AbortAfter) || (p.AbortAfter == 0 && v.n >= p.S2C/2)) {
 			break
 		}
 		n, err := conn.Read(buf)
@@ -870,6 +872,7 @@ type mkCryptoTap struct {
 	seals   map[[8 + 12]byte]int
 	nSeals  int64
 	dups    []string
+	zeroKeySeals int64 // Encrypt called on a SessionKey whose key bytes are all zero
 	restore []func()
 }
 
@@ -907,6 +910,11 @@ func mkInstallCryptoTap(recordSeals bool) *mkCryptoTap {
 			n, _ := args[1].(*[crypto.NonceSize]byte)
 			if sk == nil || n == nil {
 				return
+			}
+			if sk.Key() == ([crypto.KeySize]byte{}) {
+				ct.mu.Lock()
+				ct.zeroKeySeals++
+				ct.mu.Unlock()
 			}
 			var k [20]byte
 			fp := mkKeyFP(sk)
